@@ -230,6 +230,7 @@ def run_case(case, tier="quick", seed=0, do_replay=True):
     )
     ctx = core.Ctx(seed=seed)
     ctx.default_timeout = case.query_timeout
+    ctx.unify_timeout = getattr(case, 'unify_timeout', 8000)
     shim.import_gbasis_all()
     try:
         shim.install(ctx)
@@ -620,7 +621,11 @@ def _worker(args):
     mod = importlib.import_module(modname)
     case = getattr(mod, clsname)(**params)
     try:
-        return dict(run_case(case, tier=tier, seed=seed))
+        t0 = time.time()
+        r = dict(run_case(case, tier=tier, seed=seed))
+        if os.environ.get("VERIF_VERBOSE"):
+            print(f"[done {time.time() - t0:7.1f}s] {case.cid} obl={r.get('obligations')} ok={r.get('discharged')}", file=sys.stderr, flush=True)
+        return r
     except BaseException as e:  # noqa: BLE001
         return {"cid": case.cid, "prop": case.prop, "harness_errors": [f"worker crashed: {type(e).__name__}: {e}"],
                 "obligations": 0, "discharged": 0, "inconclusive": [], "violations": [], "known": [], "samples": [],
